@@ -446,6 +446,12 @@ func (c *Ctx) havocAll(st *State) {
 		if c.constGlobals[n] != nil {
 			continue
 		}
+		if strings.HasPrefix(n, "ghost!") {
+			if gd := c.prog.Ghosts[n[len("ghost!"):]]; gd != nil && gd.History {
+				// a history ghost: calls without a contract are assumed not to perform the recorded event
+				continue
+			}
+		}
 		if strings.HasPrefix(n, "lock!") {
 			// callees are assumed lock-balanced: they release what they acquire and leave the caller's locks alone
 			continue
